@@ -136,15 +136,15 @@ def run_case(case):
 def cases_for(tier, s):
     R = []
     n = 40 if tier == "quick" else 500
-    modes = ["subsets", "derivative", "replace", "zero"]
+    modes = ["subsets", "derivative", "replace", "zero", "elim_const"]
     for i in range(n):
         cell = CELLS[i % 5]
         opts = {}
         if i % 8 == 5:
             opts = {"scalar_type": ["complex128", "float32"][(i // 8) % 2]}
-        R.append({"recipe": {"b": "packing", "cell": cell, "p": {"seed": [s, 5, i], "ncoef": 3 + (i % 6), "nconst": i % 4,
-                                                               "arity": 1 if modes[i % 4] == "derivative" else (i // 4) % 3,
-                                                               "use_dS": i % 3 != 0, "mode": modes[i % 4]}},
+        R.append({"recipe": {"b": "packing", "cell": cell, "p": {"seed": [s, 5, i], "ncoef": 3 + (i % 6), "nconst": (i % 4) + (2 if modes[i % 5] == "elim_const" else 0),
+                                                               "arity": 1 if modes[i % 5] == "derivative" else (i // 4) % 3,
+                                                               "use_dS": i % 3 != 0, "mode": modes[i % 5]}},
                   "options": opts, "seed": [s, 500, i]})
     for cell in ("triangle", "tetrahedron", "quadrilateral"):
         R.append({"recipe": {"b": "jacobian_drop", "cell": cell}, "seed": [s, 501, 0]})
@@ -160,7 +160,7 @@ def main(tier, replay=None):
         PID, tier, "exploration",
         "cases = seeded forms with 3..8 coefficients over P1/P2/DG1/vector/mixed elements and 0..3 scalar/vector/tensor constants "
         "created in shuffled order, whose dx/ds/dx(1)/dS integrals use different subsets, and where coefficients drop out through "
-        "derivative/replace/zero factors; w/c packed from descriptor fields only and compared with the oracle on the original objects' values; "
+        "derivative/replace/zero factors, and scalar constants that only occur under a derivative (eliminated by preprocessing but still packed); w/c packed from descriptor fields only and compared with the oracle on the original objects' values; "
         "every integral with a false enabled_coefficients flag is re-run with NaN/Inf/1e300 in that coefficient's storage and must be bitwise "
         "identical; distinct non-trivial = compared kernel calls with magnitude>1e-6 plus poisoned integrals that ran",
         ["UFL/basix trusted", "the converse (enabled => really read) is not part of the property and not checked",
